@@ -1,5 +1,267 @@
 import FcpptModel.Prelude.Proto
-/-! Driver for C12 — placeholder until the property's model is built. -/
+import FcpptModel.Spec.C12
+/-!
+Driver for C12.  `K` is the character kind (`c` = char, codes 0..255; `w` = wchar_t, codes
+0..1114111), `TEXT` a comma separated list of character codes (`-` = empty), `FA` the read budget
+of the failure-injecting stream buffer (`-` = a plain `std::basic_istringstream`).
+
+History lines (state = the current stream and the saved positions):
+
+* `reset`                       — forget the stream                       → `ok`
+* `open K TEXT FA`              — new stream                              → `ok`
+* `get` / `pos` / `set J`       — get_char / get_position (saved) / set_position(saved[J])
+* `setraw OFF L C` / `setraw OFF -` — set_position of a fabricated position (outside the property's
+                                  guard; exercises the seekg failure path and the absent location)
+* `char` / `lit C` / `cset CS` / `slit C` / `scset CS` — `fcppt::parse::parse` of basic_char /
+                                  basic_literal / basic_char_set, `skipper::run` of the skippers
+
+Each answers one observation `<op>=<value>/<eof><fail><bad>`.
+
+Stateless lines:
+
+* `hist K TEXT FA OPS`          — OPS = comma separated `g`,`p`,`sJ`: all observations of that history
+* `walk K SC TEXT`              — the fixed script `SC` (`A` linear walk, `B` all pairs of rewinds)
+* `exh K SC L PREFIX`           — digest of `walk` over all texts of length `L` over {a,\n,space,tab}
+                                  starting with PREFIX
+* `seqs K TEXT FA M`            — digest of `hist` over all op sequences of length ≤ M
+* `perr K TEXT FA OPS P ARG`    — history OPS, then parser P (`char|lit|cset|slit|scset`) with ARG,
+                                  then get_position
+-/
 namespace Fcppt.C12.Drv
-def main : IO Unit := Fcppt.Proto.run (fun _ => "not-built")
+open Fcppt.Proto
+
+/-! ### rendering -/
+
+def flagsStr (s : IStream) : String := "/" ++ b01 s.eof ++ b01 s.fail ++ b01 s.bad
+
+def posStr (p : Pos) : String :=
+  match p.loc with
+  | some l => s!"{p.off}@{l.line}:{l.col}"
+  | none => s!"{p.off}@-"
+
+def opTag : Op → String
+  | .get => "g" | .pos => "p" | .set _ => "s"
+
+def obsStr (op : Op) (o : Obs) (s : IStream) : String :=
+  let v := match o with
+    | .ch (some c) => toString c
+    | .ch none => "none"
+    | .pos p => posStr p
+    | .ok => "ok"
+    | .exc => "exc"
+    | .noSlot => "noslot"
+  opTag op ++ "=" ++ v ++ flagsStr s
+
+def mix (h : UInt64) (v : Nat) : UInt64 := (h ^^^ v.toUInt64) * 1099511628211
+
+def flagsNum (s : IStream) : Nat :=
+  16 + (if s.eof then 1 else 0) + (if s.fail then 2 else 0) + (if s.bad then 4 else 0)
+
+def mixObs (h : UInt64) (o : Obs) (s : IStream) : UInt64 :=
+  let h := match o with
+    | .ch (some c) => mix (mix h 1) c
+    | .ch none => mix h 2
+    | .exc => mix h 3
+    | .pos p =>
+      match p.loc with
+      | some l => mix (mix (mix (mix h 4) p.off.toNat) l.line) l.col
+      | none => mix (mix (mix (mix h 4) p.off.toNat) 0) 0
+    | .ok => mix h 5
+    | .noSlot => mix h 6
+  mix h (flagsNum s)
+
+/-- run a history, digesting every observation -/
+def runDigest (h0 : UInt64) (st : HState) (ops : List Op) : UInt64 :=
+  (ops.foldl (fun (acc : UInt64 × HState) op =>
+    let (st', o) := step acc.2 op
+    (mixObs acc.1 o st'.s.is, st')) (h0, st)).1
+
+/-- run a history, rendering every observation -/
+def runText (st : HState) (ops : List Op) : HState × List String :=
+  let r := ops.foldl (fun (acc : HState × List String) op =>
+    let (st', o) := step acc.1 op
+    (st', obsStr op o st'.s.is :: acc.2)) (st, [])
+  (r.1, r.2.reverse)
+
+/-! ### the fixed scripts -/
+
+def rep {α : Type} (n : Nat) (f : Nat → List α) : List α := (List.range n).flatMap f
+
+/-- script A: read through saving every position; probe the end of input; rewind to every saved
+    position from far behind; a few forward jumps. -/
+def scriptA (n : Nat) : List Op :=
+  [.pos] ++ rep n (fun _ => [.get, .pos]) ++ [.get, .get, .pos, .get]
+  ++ rep (n + 1) (fun k => [.set (n - k), .get, .pos, .get])
+  ++ [.set 0, .set n, .get, .set (n / 2), .pos, .get, .set (n + 1), .pos]
+
+/-- script B: every ordered pair (a, b) of saved positions: go to a, read, go to b, observe;
+    and to every b from the end-of-input state. -/
+def scriptB (n : Nat) : List Op :=
+  [.pos] ++ rep n (fun _ => [.get, .pos])
+  ++ rep (n + 1) (fun a => rep (n + 1) (fun b => [.set a, .get, .set b, .pos, .get]))
+  ++ rep (n + 1) (fun b => [.set n, .get, .set b, .get, .pos])
+
+def script (sc : String) (n : Nat) : Option (List Op) :=
+  if sc = "A" then some (scriptA n) else if sc = "B" then some (scriptB n) else none
+
+def alphabet : List Ch := [97, 10, 32, 9]
+
+/-- all texts of length `m` over the alphabet, first letter varying slowest -/
+def allTexts : Nat → List (List Ch)
+  | 0 => [[]]
+  | m + 1 => alphabet.flatMap fun c => (allTexts m).map (c :: ·)
+
+/-- all op sequences of length ≤ m (preorder: a sequence, then its extensions by g, p, s0, s1 …),
+    `k` = number of `p` so far; sequences are built reversed -/
+def allSeqs : Nat → Nat → List Op → List (List Op)
+  | 0, _, acc => [acc.reverse]
+  | m + 1, k, acc =>
+    acc.reverse :: (allSeqs m k (.get :: acc) ++ allSeqs m (k + 1) (.pos :: acc)
+      ++ (List.range k).flatMap fun j => allSeqs m k (.set j :: acc))
+
+/-! ### parsing of operation lines -/
+
+def kindMax (k : String) : Option Nat :=
+  if k = "c" then some 255 else if k = "w" then some 1114111 else none
+
+def parseText (k : String) (s : String) : Option (List Ch) := do
+  let mx ← kindMax k
+  let l ← parseNatList s
+  if l.all (· ≤ mx) then some l else none
+
+def parseFA (s : String) : Option (Option Nat) :=
+  if s = "-" then some none else s.toNat?.map some
+
+def parseOp (s : String) : Option Op :=
+  if s = "g" then some .get
+  else if s = "p" then some .pos
+  else if s.startsWith "s" then (s.drop 1).toNat?.map .set
+  else none
+
+def parseOps (s : String) : Option (List Op) :=
+  if s = "-" then some [] else (s.splitOn ",").mapM parseOp
+
+/-! ### character-level parsers -/
+
+def presStr (withValue : Bool) : Stream.PRes → String
+  | .ok c => if withValue then s!"ok:{c}" else "ok"
+  | .fail (.expected (some l)) => s!"fail:{l.line}:{l.col}"
+  | .fail _ => "fail:noloc"
+
+/-- `P ARG` → (stream after, result text) -/
+def runParser (k : String) (p : String) (arg : String) (s : Stream) : Option (Stream × String) :=
+  let viaParse (pred : Ch → Bool) (wv : Bool) : Stream × String :=
+    let (s', r) := s.parse pred
+    (s', presStr wv r)
+  let viaSkip (pred : Ch → Bool) : Stream × String :=
+    match s.charPred pred with
+    | (s', .ok r) => (s', presStr false r)
+    | (s', .error _) => (s', "exc")
+  if p = "char" then (if arg = "-" then some (viaParse (fun _ => true) true) else none)
+  else if p = "lit" || p = "slit" then
+    match parseText k arg with
+    | some [c] => some (if p = "lit" then viaParse (· == c) false else viaSkip (· == c))
+    | _ => none
+  else if p = "cset" || p = "scset" then
+    match parseText k arg with
+    | some cs => some (if p = "cset" then viaParse (cs.contains ·) true else viaSkip (cs.contains ·))
+    | none => none
+  else none
+
+/-! ### the handler -/
+
+abbrev DState := Option (String × HState)     -- kind, history state
+
+def obs1 (st : HState) (op : Op) : HState × String :=
+  let (st', o) := step st op
+  (st', obsStr op o st'.s.is)
+
+def handle (d : DState) (toks : List String) : DState × String :=
+  match toks with
+  | ["reset"] => (none, "ok")
+  | ["open", k, text, fa] =>
+    match parseText k text, parseFA fa with
+    | some t, some f => (some (k, HState.open t f), "ok")
+    | _, _ => (d, "bad-op")
+  | ["get"] =>
+    match d with
+    | some (k, st) => let (st', r) := obs1 st .get; (some (k, st'), r)
+    | none => (d, "no-stream")
+  | ["pos"] =>
+    match d with
+    | some (k, st) => let (st', r) := obs1 st .pos; (some (k, st'), r)
+    | none => (d, "no-stream")
+  | ["set", j] =>
+    match d, j.toNat? with
+    | some (k, st), some j => let (st', r) := obs1 st (.set j); (some (k, st'), r)
+    | none, some _ => (d, "no-stream")
+    | _, none => (d, "bad-op")
+  | "setraw" :: off :: rest =>
+    let loc : Option (Option Loc) :=
+      match rest with
+      | ["-"] => some none
+      | [l, c] => match l.toNat?, c.toNat? with
+        | some l, some c => some (some ⟨l, c⟩)
+        | _, _ => none
+      | _ => none
+    match d, off.toInt?, loc with
+    | some (k, st), some off, some loc =>
+      let (s', r) := st.s.setPosition { off := off, loc := loc }
+      let v := match r with | .ok () => "ok" | .error _ => "exc"
+      (some (k, { st with s := s' }), "s=" ++ v ++ flagsStr s'.is)
+    | none, some _, some _ => (d, "no-stream")
+    | _, _, _ => (d, "bad-op")
+  | [p, arg] =>
+    match d with
+    | some (k, st) =>
+      match runParser k p arg st.s with
+      | some (s', r) => (some (k, { st with s := s' }), "r=" ++ r ++ flagsStr s'.is)
+      | none => (d, "bad-op")
+    | none => if ["char", "lit", "cset", "slit", "scset"].contains p then (d, "no-stream") else (d, "bad-op")
+  | ["hist", k, text, fa, ops] =>
+    match parseText k text, parseFA fa, parseOps ops with
+    | some t, some f, some ops => (d, " ".intercalate (runText (HState.open t f) ops).2)
+    | _, _, _ => (d, "bad-op")
+  | ["walk", k, sc, text] =>
+    match parseText k text with
+    | some t =>
+      match script sc t.length with
+      | some ops => (d, " ".intercalate (runText (HState.open t none) ops).2)
+      | none => (d, "bad-op")
+    | none => (d, "bad-op")
+  | ["exh", k, sc, l, prefix_] =>
+    match kindMax k, l.toNat?, parseText k prefix_ with
+    | some _, some l, some pre =>
+      if pre.length ≤ l ∧ l ≤ 16 ∧ pre.all (alphabet.contains ·) then
+        match script sc l with
+        | some ops =>
+          let h := (allTexts (l - pre.length)).foldl
+            (fun h suf => runDigest h (HState.open (pre ++ suf) none) ops) fnvInit
+          (d, "D " ++ hex64 h)
+        | none => (d, "bad-op")
+      else (d, "bad-op")
+    | _, _, _ => (d, "bad-op")
+  | ["seqs", k, text, fa, m] =>
+    match parseText k text, parseFA fa, m.toNat? with
+    | some t, some f, some m =>
+      if m ≤ 8 then
+        let h := (allSeqs m 0 []).foldl (fun h ops => runDigest h (HState.open t f) ops) fnvInit
+        (d, "D " ++ hex64 h)
+      else (d, "bad-op")
+    | _, _, _ => (d, "bad-op")
+  | ["perr", k, text, fa, ops, p, arg] =>
+    match parseText k text, parseFA fa, parseOps ops with
+    | some t, some f, some ops =>
+      let st := (runText (HState.open t f) ops).1
+      match runParser k p arg st.s with
+      | some (s', r) =>
+        let (st', o) := obs1 { st with s := s' } .pos
+        let _ := st'
+        (d, "r=" ++ r ++ flagsStr s'.is ++ " " ++ o)
+      | none => (d, "bad-op")
+    | _, _, _ => (d, "bad-op")
+  | _ => (d, "bad-op")
+
+def main : IO Unit := Proto.runState (none : DState) handle
+
 end Fcppt.C12.Drv
